@@ -103,6 +103,11 @@ def check_length_field(wire: bytes, text: str) -> tuple:
     return n, h
 
 
+def prefixes_match(decoded: dict, expected: list) -> bool:
+    got = {c['type']: (c['prefix'], c['offset']) for c in decoded['components'] if 'prefix' in c}
+    return all(got.get(t) == (w[1], w[2]) for t, w in expected if isinstance(w, tuple))
+
+
 def compare_components(rule: dict, decoded: dict, expected: list, text: str, wire: bytes, deferred: list) -> None:
     short = f'"{text[:300]}" -> {wire[:80].hex()}'
     got_types = [c['type'] for c in decoded['components']]
@@ -235,26 +240,30 @@ def check_encode(rule: dict) -> dict:
 
     # ---- components
     deferred: list = []
+    decoded, strict_error = None, None
     try:
         decoded = rf.decode_body(value, afi, vpn)
     except rf.Malformed as exc:
-        decoded = None
-        if afi == 2 and any(isinstance(w, tuple) and w[2] > 0 for _, w in expected):
-            try:
-                decoded = rf.decode_body(value, afi, vpn, ipv6_layout='whole-prefix')
-            except rf.Malformed:
-                decoded = None
-            if decoded is not None:
-                deferred.append(
-                    Violation(
-                        'encode:ipv6-offset-pattern',
-                        f'prefix with offset > 0 carries ceil(length/8) octets from bit 0 instead of the length-offset pattern bits (RFC 8956 3.1): "{text[:200]}" -> {wire[:60].hex()}',
-                    )
+        strict_error = exc
+    offset_prefixes = afi == 2 and any(isinstance(w, tuple) and w[2] > 0 for _, w in expected)
+    if offset_prefixes and (decoded is None or not prefixes_match(decoded, expected)):
+        # does the deviation have a name?  read the octets the way the early flow-spec-v6 drafts laid a prefix out
+        try:
+            draft = rf.decode_body(value, afi, vpn, ipv6_layout='whole-prefix')
+        except rf.Malformed:
+            draft = None
+        if draft is not None and prefixes_match(draft, expected):
+            deferred.append(
+                Violation(
+                    'encode:ipv6-offset-pattern',
+                    f'prefix with offset > 0 carries ceil(length/8) octets from bit 0 instead of the length-offset pattern bits (RFC 8956 3.1): "{text[:200]}" -> {wire[:60].hex()}',
                 )
-        if decoded is None:
-            if rule['probe']:
-                raise Violation('encode:out-of-range-emitted', f'"{text[:200]}" -> {wire.hex()[:200]}: {exc}') from None
-            raise Violation(f'encode:undecodable:{exc.kind}', f'{exc}: "{text[:300]}" -> {wire[:120].hex()}') from None
+            )
+            decoded = draft
+    if decoded is None:
+        if rule['probe']:
+            raise Violation('encode:out-of-range-emitted', f'"{text[:200]}" -> {wire.hex()[:200]}: {strict_error}') from None
+        raise Violation(f'encode:undecodable:{strict_error.kind}', f'{strict_error}: "{text[:300]}" -> {wire[:120].hex()}') from None
     if rule['probe']:
         got = [c for c in decoded['components'] if c['type'] == rule['probe']['type']]
         if not got or [t['value'] for t in got[0]['terms']] != [rule['probe']['value']]:
@@ -328,7 +337,7 @@ def exabgp_rule(nlri, afi: int) -> list:
     return out
 
 
-def check_decode(case: dict) -> dict:
+def _decode_once(case: dict) -> dict:
     from exabgp.bgp.message.action import Action
     from exabgp.bgp.message.notification import Notify
     from exabgp.bgp.message.open.capability.negotiated import Negotiated
@@ -354,6 +363,9 @@ def check_decode(case: dict) -> dict:
     except rf.Malformed as exc:
         fault = exc.kind
         n = rf.read_length(first)[0]
+    if reference is not None and any(t['reserved'] for c in reference['components'] if 'terms' in c for t in c['terms']):
+        # only a mutation gets here: reserved operator bits are "ignored on decoding", how they are reported is not demanded
+        return {'nontrivial': False, 'classes': classes + ['reference:reserved-bits:not-demanded']}
     if mutation is None and fault is not None:
         raise RuntimeError(f'generator produced a malformed NLRI without a mutation: {fault} {first.hex()}')
     if fault is not None and fault not in ('undefined-component', 'truncated', 'missing-end-of-list', 'length-overrun'):
@@ -384,7 +396,6 @@ def check_decode(case: dict) -> dict:
         raise Violation(exception_signature('decode', exc), f'{exc!r} for {first[:200].hex()}') from exc
 
     shown = first[:120].hex() + ('...' if len(first) > 120 else '')
-    whole_prefix_reading = None
     has_offset = afi == 2 and reference is not None and any('prefix' in c and c['offset'] > 0 for c in reference['components'])
 
     if fault is not None:
@@ -405,22 +416,13 @@ def check_decode(case: dict) -> dict:
             raise Violation('decode:extended-length', f'well-formed NLRI of {reference["length"]} octets (length field {first[:2].hex()}) answered with {outcome}')
         raise Violation('decode:well-formed-refused', f'{shown} answered with {outcome}')
     expected_count = 2 if len(data) > len(first) else 1
-    if has_offset:
-        try:
-            whole_prefix_reading = rf.canonical(rf.decode_body(first[rf.read_length(first)[1] :], afi, vpn, ipv6_layout='whole-prefix'))
-        except rf.Malformed:
-            whole_prefix_reading = 'malformed'
     if len(delivered) != expected_count or delivered[0] is None:
-        if has_offset and (whole_prefix_reading == 'malformed' or whole_prefix_reading != want):
-            raise Violation('decode:ipv6-offset-pattern', f'{shown}: prefix with offset > 0 is read as ceil(length/8) octets, the NLRI is dropped or cut differently (RFC 8956 3.1)')
         if reference['length'] >= 256:
             raise Violation('decode:extended-length', f'well-formed NLRI of {reference["length"]} octets delivered as {len(delivered)} NLRIs, first {"INVALID" if delivered and delivered[0] is None else "ok"}')
         raise Violation('decode:well-formed-dropped', f'{shown}: {["INVALID" if d is None else "rule" for d in delivered]} for {expected_count} NLRI(s)')
     got = delivered[0]
 
     def differs(tag: str, seen: list, difference: str) -> Violation:
-        if has_offset and whole_prefix_reading not in (None, 'malformed') and model.same_meaning(whole_prefix_reading, seen) is None:
-            return Violation('decode:ipv6-offset-pattern', f'{shown}: read with the pattern taken from bit 0: {difference}')
         broader = sum(len(b) if isinstance(b, list) else 1 for _, b in seen) < sum(len(b) if isinstance(b, list) else 1 for _, b in want)
         return Violation(f'decode:{tag}:{"shorter-rule" if broader else "differs"}', f'{shown}: {difference}')
 
@@ -480,6 +482,26 @@ def check_decode(case: dict) -> dict:
     if mutation:
         classes.append('mutation-left-well-formed')
     return {'nontrivial': nontrivial, 'classes': classes, 'sample': {'nlri': shown, 'rule': got.extensive()[:200]}}
+
+
+def check_decode(case: dict) -> dict:
+    try:
+        return _decode_once(case)
+    except Violation as v:
+        offsets = [c for c in case['components'] if c.get('offset')]
+        if case['afi'] != 2 or not offsets:
+            raise
+        # differential: the same NLRI with every offset at zero.  When that one is read correctly the cause is the
+        # layout of <length, offset, pattern> (RFC 8956 3.1: the pattern holds length - offset bits), whatever the symptom
+        plain = dict(case, components=[dict(c, offset=0) if c.get('offset') else c for c in case['components']])
+        try:
+            _decode_once(plain)
+        except Violation:
+            raise v from None
+        except ValueError:
+            raise v from None
+        first, _ = model.wire_nlri(case)
+        raise Violation('decode:ipv6-offset-pattern', f'{first[:80].hex()}: correct with offset 0, with the offset: {v.signature}: {v.message[:300]}') from None
 
 
 # ---------------------------------------------------------------------------- enumerated cases
